@@ -163,7 +163,8 @@ impl Wait for YieldingWait {
         }
         loop {
             yield_now();
-            for _ in 0..self.spins_yield {
+            // at least one check per round, also when spins_yield is 0
+            for _ in 0..self.spins_yield.max(1) {
                 if check(seq, w_pos, wc) {
                     return;
                 }
